@@ -462,6 +462,8 @@ extern "C" int engineexport_run(int breathe_dt)
 extern "C" int engineexport_iterate_n(int n_iterations)
     {
     bool unfinished = true;
+    if      (global_space_type == 0) unfinished = !global_grid_algo->IsComplete();
+    else if (global_space_type == 1) unfinished = !global_graph_algo->IsComplete();
     for(int i=0; i<n_iterations; i++)
         {
         if      (global_space_type == 0) unfinished = global_grid_algo->Iterate();
